@@ -36,8 +36,10 @@ POOLS = {
         dict(classes=["own", "sub0"], keys=["p1", "m1", "m2", "kxy"]),
         dict(classes=["shared0", "shared1", "custom"], keys=["p1", "m1", "m2"]),
         dict(classes=["own"], keys=["p1", "m1", "m2", "kxy", "kyx", "p1k"]),
+        dict(classes=["falsy", "own"], keys=["p1", "m1", "kxy"]),
     ],
     "thorough": [
+        dict(classes=["falsy", "sub0"], keys=["p1", "m1", "m2", "kxy"]),
         dict(classes=["own", "sub0"], keys=["p1", "m1", "m2", "kxy", "kyx"]),
         dict(classes=["shared0", "shared1", "custom"], keys=["p1", "p2", "m1", "m2"]),
         dict(classes=["own", "own", "sub0"], keys=["p1", "m1", "m2"]),
@@ -64,13 +66,17 @@ class World:
         self.inits = collections.Counter()
         inits = self.inits
 
-        def mk(name, meta, bases=()):
+        def mk(name, meta, bases=(), falsy=False):
             def __init__(self, *a, **k):
                 inits[id(self)] += 1
                 inits["total"] += 1
                 self.a = a
                 self.k = dict(k)
-            return meta(name, bases, {"__init__": __init__})
+            ns = {"__init__": __init__}
+            if falsy:
+                # an (initially empty) container-like class: its instances are falsy
+                ns["__len__"] = lambda self: 0
+            return meta(name, bases, ns)
 
         shared = None
         self.cls = []
@@ -79,6 +85,8 @@ class World:
             name = f"K{idx}_{kind}"
             if kind == "own":
                 c = mk(name, S.semi_singleton_metaclass())
+            elif kind == "falsy":
+                c = mk(name, S.semi_singleton_metaclass(), falsy=True)
             elif kind.startswith("shared"):
                 if shared is None:
                     shared = S.semi_singleton_metaclass()
